@@ -700,9 +700,9 @@ def main():
             level = P.get("level", "proof")
             fns = sorted({f for u, r in pl for f in r["functions"]})
             samples = []
-            for u, r in results:
+            for u, r in sorted(results, key=lambda ur: 0 if ur[0].level in ("P", "L") else 1):  # unbounded units first
                 for s in r["samples"][:2]:
-                    samples.append(dict(s, unit=u.name))
+                    samples.append(dict(s, unit=u.name, unit_level=u.level))
             cov = {
                 "obligations": obl, "discharged": dis,
                 "checker_cmd": "goto-cc --function <harness> ; goto-instrument --dfcc <harness> --enforce-contract f/contract_f [--replace-call-with-contract g/contract_g] [--apply-loop-contracts --loop-contracts-file ..] ; cbmc --json-ui " + " ".join(COMMON_CHECKS),
